@@ -2,14 +2,14 @@
 # usage: tools/try_seed.sh <seed dir under /verif/seeded> <check ids...>
 # Applies the seeded patch, runs the given checks (quick), reverts the patch.
 # Default target is /repo itself (git -C /repo apply ...; checks; git -C /repo checkout -- .).
-# With SCRATCH=1 the patch is applied to the scratch worktree /tmp/vs and the checks run with VERIF_REPO=/tmp/vs
+# With SCRATCH=1 the patch is applied to the scratch worktree /tmp/vseed and the checks run with VERIF_REPO=/tmp/vseed
 # (used while a background run needs /repo untouched).
 set -u
 export VERIF_NO_EVIDENCE=1
 seed=$1; shift
 target=/repo
 if [ "${SCRATCH:-0}" = 1 ]; then
-  target=/tmp/vs
+  target=/tmp/vseed
   [ -d $target ] || git -C /repo worktree add -q --detach $target HEAD
   git -C $target checkout -q --detach $(git -C /repo rev-parse HEAD)
   export VERIF_REPO=$target
